@@ -251,6 +251,10 @@ class LSMTree(Entity):
         # Immutable memtables awaiting flush (for reads during flush)
         self._immutable_memtables: list[Memtable] = []
 
+        # Number of crash() calls; lets a suspended flush notice that the
+        # memtable it was writing out has been lost in the meantime
+        self._crash_count: int = 0
+
         # True while a compaction is suspended between choosing its input
         # SSTables and installing its output
         self._compaction_in_progress: bool = False
@@ -541,7 +545,12 @@ class LSMTree(Entity):
 
         # Write latency for creating SSTable on disk
         pages = max(1, sstable.key_count // 16)
+        crash_count = self._crash_count
         yield pages * self._sstable_write_latency
+        if crash_count != self._crash_count:
+            # Power was lost mid-flush: the half-written SSTable is gone with
+            # the memtable; the WAL (not truncated yet) still has the data.
+            return
 
         self._total_memtable_flushes += 1
 
@@ -709,6 +718,7 @@ class LSMTree(Entity):
         """
         memtable_lost = self._memtable.size
         immutable_lost = sum(m.size for m in self._immutable_memtables)
+        self._crash_count += 1
 
         # Clear volatile state
         self._memtable = Memtable(
